@@ -93,11 +93,23 @@ Theorem C10_stores_classified : forallb (store_ok reset_facts) g_stores = true.
 Proof. exact stores_classified_lemma. Qed.
 Print Assumptions C10_stores_classified.
 
-(* every unique-name filter is registered so that it runs at render time, except the listed C++ one (F-CPP-UNIQ-FOLD) *)
+(* every unique-name filter is registered (decorator, or module-level re-binding through the decorator) so that it runs at render
+   time; no exception *)
 Theorem C10_uniq_filters_render_time :
-  forallb (fun f => filter_ok f || str_in (f_lang f) known_foldable_langs) g_uniq_filters = true.
+  forallb filter_ok g_uniq_filters = true.
 Proof. exact uniq_filters_lemma. Qed.
 Print Assumptions C10_uniq_filters_render_time.
+
+(* THE SIBLING CLAUSE, static part: every READ that spans more than a type and its dependency closure -- any use of the Namespace API
+   (public names regenerated from class Namespace), of the generator's namespace attribute, of environment globals, of the language
+   context, of get_includes / get_dependency_builder -- in render-phase Python code and in every template a TYPE file can be made of
+   (include/import/extends graph from the templates the lookup can select for a type) is on the reviewed list: the API's own
+   implementation, generate_all deciding which files to write, a lookup by the referenced type, a constant of the run.  Templates
+   reachable only from Namespace.j2 may list their namespace's types.  An unaccounted read makes the model hand the run's INPUT SET
+   to `render` (reads_leak), and C10_file_indep / C10_subset are no longer derivable. *)
+Theorem C10_sibling_reads_classified : forallb read_ok g_wide_reads = true.
+Proof. exact wide_reads_classified_lemma. Qed.
+Print Assumptions C10_sibling_reads_classified.
 
 (* every object bound at module or class scope of src/nunavut (literal containers AND results of calls, i.e. instances of any
    class) is never written and never handed to code that could keep or fill it -- or has been reviewed; this is what a process-wide
@@ -111,6 +123,11 @@ Print Assumptions C10_module_objects_constant.
 Theorem C10_engine_constructed_per_environment : forallb envkw_ok g_env_kwargs = true /\ (0 < length g_env_kwargs)%nat.
 Proof. exact env_kwargs_ok_lemma. Qed.
 Print Assumptions C10_engine_constructed_per_environment.
+
+(* the bundled engine keeps one process-wide cache of Lexer objects; its key contains every environment attribute the Lexer reads *)
+Theorem C10_engine_lexer_cache_keyed_completely : lexer_key_complete g_lexer_key g_lexer_reads = true.
+Proof. exact lexer_key_complete_lemma. Qed.
+Print Assumptions C10_engine_lexer_cache_keyed_completely.
 
 (* ---------------------------------------------------------------------------------------------------------------------- *)
 (* (4) closure and template selection                                                                                     *)
@@ -132,23 +149,24 @@ Print Assumptions C10_real_forest.
 (* THE NAMED PREMISE about the template engine: which program (sequence of emit / unique-name / memoised-call / peek
    operations) a template is for a type does not depend on the process state.  Backed -- outside Coq -- by the scanned facts
    (3): every registered callable that keeps state is an inventoried site or store. *)
-Definition render_pure (render : ambient -> N -> option str -> tyobj -> prog) : Prop :=
-  forall (a1 a2 : ambient) cf tmpl o, render a1 cf tmpl o = render a2 cf tmpl o.
+Definition render_pure (render : ambient -> list (list N) -> N -> option str -> tyobj -> prog) : Prop :=
+  forall (a1 a2 : ambient) I cf tmpl o, render a1 I cf tmpl o = render a2 I cf tmpl o.
 
 (* in EVERY history the template chosen for a file is the nearest class of the type's inheritance chain that the generator's
    listing has: a function of (class, listing) only; the loader memo cannot change it.  Real class forest. *)
 Theorem C10_template_selection_indep :
   forall (U : universe) (sites : list site) (stores : list store) (rfacts : bool),
     forallb site_ok sites = true -> forallb (store_ok rfacts) stores = true ->
-  forall (render : ambient -> N -> option str -> tyobj -> prog), render_pure render ->
+  forall (reads : list wread), forallb read_ok reads = true ->
+  forall (render : ambient -> list (list N) -> N -> option str -> tyobj -> prog), render_pure render ->
   forall (cfun : ckey -> str) (lel_shared : bool) (m : option nat) (h : list op) (e : entry),
-    In e (log U LookupInst.p_bases LookupInst.p_name LookupInst.p_fuel sites stores rfacts render cfun m generate_code_resets_uniq lel_shared h) ->
+    In e (log U LookupInst.p_bases LookupInst.p_name LookupInst.p_fuel sites stores rfacts reads render cfun m generate_code_resets_uniq lel_shared h) ->
     e_tmpl e = Lookup.nearest (Lookup.tmap LookupInst.p_name (e_tset e))
                  (Lookup.chain_n LookupInst.p_bases (LookupInst.p_rank (obj_cls (e_obj e))) (obj_cls (e_obj e))).
 Proof.
-  intros U sites stores rfacts Hs Hst render Hr cfun lel m h e Hin.
+  intros U sites stores rfacts Hs Hst reads Hrd render Hr cfun lel m h e Hin.
   exact (template_selection_lemma U _ _ _ _ LookupInstThm.p_single LookupInstThm.p_rank_ok LookupInstThm.p_rank_fuel
-           sites stores rfacts Hs Hst render Hr cfun lel m h e Hin).
+           sites stores rfacts Hs Hst reads Hrd render Hr cfun lel m h e Hin).
 Qed.
 Print Assumptions C10_template_selection_indep.
 
@@ -156,7 +174,8 @@ Print Assumptions C10_template_selection_indep.
 (* (5) per-type independence                                                                                              *)
 
 (* GENERAL FORM.  Premises: the class graph is a forest; the memoisation-site table the model looks its memo keys up in is
-   admissible; the store table the model's per-file step consults has no inadmissible render-phase store; render_pure.
+   admissible; the store table the model's per-file step consults has no inadmissible render-phase store; the table of reads
+   beyond a type's closure is accounted for (otherwise `render` is handed the input set of the run); render_pure.
    Then two files of the same type written under the same effective configuration (generator options + per-call arguments),
    template listing and constructed processors -- in ANY two histories (input sets, orders, earlier runs, other generators,
    repeated generate_all calls with other arguments, dry runs, cache clearing, cache sizes) -- come from the same template and
@@ -166,15 +185,16 @@ Theorem C10_file_indep :
   forall (U : universe) (bases : N -> list N) (cname : N -> str) (fuel : nat) (rank : N -> nat), forest bases rank fuel ->
   forall (sites : list site) (stores : list store) (rfacts : bool),
     forallb site_ok sites = true -> forallb (store_ok rfacts) stores = true ->
-  forall (render : ambient -> N -> option str -> tyobj -> prog), render_pure render ->
+  forall (reads : list wread), forallb read_ok reads = true ->
+  forall (render : ambient -> list (list N) -> N -> option str -> tyobj -> prog), render_pure render ->
   forall (cfun : ckey -> str) (m1 m2 : option nat) (h1 h2 : list op) (e1 e2 : entry),
-    In e1 (log U bases cname fuel sites stores rfacts render cfun m1 generate_code_resets_uniq (negb generate_code_resets_line_pps) h1) ->
-    In e2 (log U bases cname fuel sites stores rfacts render cfun m2 generate_code_resets_uniq (negb generate_code_resets_line_pps) h2) ->
+    In e1 (log U bases cname fuel sites stores rfacts reads render cfun m1 generate_code_resets_uniq (negb generate_code_resets_line_pps) h1) ->
+    In e2 (log U bases cname fuel sites stores rfacts reads render cfun m2 generate_code_resets_uniq (negb generate_code_resets_line_pps) h2) ->
     e_cfg e1 = e_cfg e2 -> e_tset e1 = e_tset e2 -> e_pps0 e1 = e_pps0 e2 -> e_key e1 = e_key e2 ->
     e_tmpl e1 = e_tmpl e2 /\ e_text e1 = e_text e2.
 Proof.
-  intros U bases cname fuel rank (F1 & F2 & F3) sites stores rfacts Hs Hst render Hr cfun m1 m2 h1 h2 e1 e2 H1 H2 Hc Ht Hp Hk.
-  exact (file_indep_lemma U bases cname fuel rank F1 F2 F3 sites stores rfacts Hs Hst render Hr cfun false m1 m2 h1 h2 e1 e2
+  intros U bases cname fuel rank (F1 & F2 & F3) sites stores rfacts Hs Hst reads Hrd render Hr cfun m1 m2 h1 h2 e1 e2 H1 H2 Hc Ht Hp Hk.
+  exact (file_indep_lemma U bases cname fuel rank F1 F2 F3 sites stores rfacts Hs Hst reads Hrd render Hr cfun false m1 m2 h1 h2 e1 e2
            H1 H2 Hc Ht Hp Hk (or_introl eq_refl)).
 Qed.
 Print Assumptions C10_file_indep.
@@ -182,47 +202,45 @@ Print Assumptions C10_file_indep.
 (* THE INSTANCE THE PROPERTY IS ABOUT: the regenerated inventories and the regenerated pydsdl class forest; the only premise left
    is the named one about the template engine. *)
 Theorem C10_file_indep_real :
-  forall (U : universe) (render : ambient -> N -> option str -> tyobj -> prog), render_pure render ->
+  forall (U : universe) (render : ambient -> list (list N) -> N -> option str -> tyobj -> prog), render_pure render ->
   forall (cfun : ckey -> str) (m1 m2 : option nat) (h1 h2 : list op) (e1 e2 : entry),
-    In e1 (log U LookupInst.p_bases LookupInst.p_name LookupInst.p_fuel g_sites g_stores reset_facts render cfun m1
+    In e1 (log U LookupInst.p_bases LookupInst.p_name LookupInst.p_fuel g_sites g_stores reset_facts g_wide_reads render cfun m1
                generate_code_resets_uniq (negb generate_code_resets_line_pps) h1) ->
-    In e2 (log U LookupInst.p_bases LookupInst.p_name LookupInst.p_fuel g_sites g_stores reset_facts render cfun m2
+    In e2 (log U LookupInst.p_bases LookupInst.p_name LookupInst.p_fuel g_sites g_stores reset_facts g_wide_reads render cfun m2
                generate_code_resets_uniq (negb generate_code_resets_line_pps) h2) ->
     e_cfg e1 = e_cfg e2 -> e_tset e1 = e_tset e2 -> e_pps0 e1 = e_pps0 e2 -> e_key e1 = e_key e2 ->
     e_tmpl e1 = e_tmpl e2 /\ e_text e1 = e_text e2.
 Proof.
   intros U render Hr cfun m1 m2 h1 h2 e1 e2.
   exact (C10_file_indep U _ _ _ _ C10_real_forest g_sites g_stores reset_facts C10_all_caches_keyed_by_identity_or_value
-           C10_stores_classified render Hr cfun m1 m2 h1 h2 e1 e2).
+           C10_stores_classified g_wide_reads C10_sibling_reads_classified render Hr cfun m1 m2 h1 h2 e1 e2).
 Qed.
 Print Assumptions C10_file_indep_real.
 
 (* SUBSET.  S ⊆ W are two input sets (a dependency-closed subset of the namespace and the whole namespace, say), k is
    processed in both runs (any two orders), the dependency closure of k lies inside S (resolve_in succeeds).  Then the file for
    k EXISTS in the run over S and in the run over W, comes from the same template and is byte-identical.  Runs: one new
-   interpreter each, one generator, one generate_all (single_run). *)
+   interpreter each, one generator, one generate_all (single_run), with the regenerated reset facts (if a reset disappears from
+   the source this statement no longer type-checks). *)
 Theorem C10_subset :
-  forall (U : universe) (render : ambient -> N -> option str -> tyobj -> prog), render_pure render ->
+  forall (U : universe) (render : ambient -> list (list N) -> N -> option str -> tyobj -> prog), render_pure render ->
   forall (cfun : ckey -> str) (m1 m2 : option nat) (cf : N) (ts : list (str * str)) (pps : list pp) (args : N)
          (S W ordS ordW : list (list N)) (k : list N) (o : tyobj),
     incl S W -> In k ordS -> In k ordW -> resolve_in U S k = Some o ->
     exists eS eW,
-      In eS (log U LookupInst.p_bases LookupInst.p_name LookupInst.p_fuel g_sites g_stores reset_facts render cfun m1 true false
-                 (single_run cf ts pps S ordS args)) /\
-      In eW (log U LookupInst.p_bases LookupInst.p_name LookupInst.p_fuel g_sites g_stores reset_facts render cfun m2 true false
-                 (single_run cf ts pps W ordW args)) /\
+      In eS (log U LookupInst.p_bases LookupInst.p_name LookupInst.p_fuel g_sites g_stores reset_facts g_wide_reads render cfun m1
+                 generate_code_resets_uniq (negb generate_code_resets_line_pps) (single_run cf ts pps S ordS args)) /\
+      In eW (log U LookupInst.p_bases LookupInst.p_name LookupInst.p_fuel g_sites g_stores reset_facts g_wide_reads render cfun m2
+                 generate_code_resets_uniq (negb generate_code_resets_line_pps) (single_run cf ts pps W ordW args)) /\
       e_key eS = k /\ e_key eW = k /\ e_tmpl eS = e_tmpl eW /\ e_text eS = e_text eW.
 Proof.
   intros U render Hr cfun m1 m2 cf ts pps args S W ordS ordW k o.
   exact (subset_lemma U _ _ _ _ LookupInstThm.p_single LookupInstThm.p_rank_ok LookupInstThm.p_rank_fuel g_sites g_stores reset_facts
-           C10_all_caches_keyed_by_identity_or_value C10_stores_classified render Hr cfun m1 m2 cf ts pps args S W ordS ordW k o).
+           C10_all_caches_keyed_by_identity_or_value C10_stores_classified g_wide_reads C10_sibling_reads_classified render Hr cfun
+           m1 m2 cf ts pps args S W ordS ordW k o).
 Qed.
 Print Assumptions C10_subset.
 
-(* the runs of C10_subset are the runs of the code as translated: reset present, line processors reset *)
-Theorem C10_subset_is_current_code : generate_code_resets_uniq = true /\ negb generate_code_resets_line_pps = false.
-Proof. split; reflexivity. Qed.
-Print Assumptions C10_subset_is_current_code.
 
 (* the premises are not decoration: with an inadmissible site in the table the model's memo returns a stale value, with an
    unclassified render-phase store the model lets a file see what earlier files left *)
@@ -232,8 +250,10 @@ Theorem C10_premises_are_consulted :
    let c1 := fst (proj_call (memo_proj [bad] 0) snd None [] (1, [65])) in
    snd (proj_call (memo_proj [bad] 0) snd None c1 (1, [66])) = [65]) /\
   (let bad := {| st_file := []; st_fn := []; st_target := [120]; st_root := RSelf; st_phase := SRender |} in
-   stores_leak true [bad] = true /\ stores_leak true g_stores = false).
-Proof. exact (conj inadmissible_site_is_observable unclassified_store_leaks). Qed.
+   stores_leak true [bad] = true /\ stores_leak true g_stores = false) /\
+  (let bad := {| w_file := [120]; w_where := [121]; w_name := [122]; w_kind := WTemplateType |} in
+   reads_leak [bad] = true /\ reads_leak g_wide_reads = false).
+Proof. exact (conj inadmissible_site_is_observable (conj unclassified_store_leaks unclassified_read_shows_the_input_set)). Qed.
 Print Assumptions C10_premises_are_consulted.
 
 (* ---------------------------------------------------------------------------------------------------------------------- *)
@@ -241,8 +261,8 @@ Print Assumptions C10_premises_are_consulted.
    arguments of the generate_all that wrote it), so (5) covers repeated calls; a dry run writes nothing and leaves unique
    names, memo tables, scratch state and line processors untouched.                                                        *)
 Theorem C10_dry_run_inert :
-  forall U bases cname fuel sites stores rfacts render cfun maxsize resets lel (s : pstate) (gid : nat) (args : N) (order : list (list N)),
-    let r := op_step U bases cname fuel sites stores rfacts render cfun maxsize resets lel s (ORun gid args true order) in
+  forall U bases cname fuel sites stores rfacts reads render cfun maxsize resets lel (s : pstate) (gid : nat) (args : N) (order : list (list N)),
+    let r := op_step U bases cname fuel sites stores rfacts reads render cfun maxsize resets lel s (ORun gid args true order) in
     snd r = [] /\ p_uniq (fst r) = p_uniq s /\ p_cache (fst r) = p_cache s /\ p_scratch (fst r) = p_scratch s /\
     map go_pps (p_gens (fst r)) = map go_pps (p_gens s).
 Proof. exact dry_run_lemma. Qed.
